@@ -131,6 +131,40 @@ def write_replay(prop, ob, extra=None):
     return path
 
 
+def assumption_scan():
+    """Mechanical scan (every run) of the contract files this run used for everything that is assumed rather than
+    proved: kani::assume preconditions, stubs, Verus trust tokens.  Reported verbatim in the evidence."""
+    import re as _re
+    out = {"files": [], "kani_assume": [], "kani_stub": [], "verus_trusted": []}
+    try:
+        import kani_engine
+        files = sorted(kani_engine.USED_FILES)
+    except Exception:
+        files = []
+    for f in files:
+        try:
+            src = open(f).read()
+        except OSError:
+            continue
+        out["files"].append(os.path.relpath(f, VERIF))
+        for k, line in enumerate(src.split("\n")):
+            code = line.split("//")[0].strip()
+            if "kani::assume(" in code:
+                out["kani_assume"].append("%s:%d: %s" % (os.path.basename(f), k + 1, code[:160]))
+            if _re.search(r"kani::stub\(|stub_verified\(", code):
+                out["kani_stub"].append("%s:%d: %s" % (os.path.basename(f), k + 1, code[:160]))
+    try:
+        import vl
+        if vl.USED:
+            out["files"].append(os.path.relpath(vl.LEMMA_FILE, VERIF))
+            out["verus_trusted"] = vl.trusted_tokens()
+    except Exception:
+        pass
+    out["counts"] = {"kani_assume": len(out["kani_assume"]), "kani_stub": len(out["kani_stub"]), "verus_trusted": len(out["verus_trusted"])}
+    out["kani_assume"] = out["kani_assume"][:60]
+    return out
+
+
 def finish(prop, tier, seed, obligations, meta, t0, confirm=None):
     """Classify results, print lines, write evidence, return exit code.
 
@@ -213,6 +247,7 @@ def finish(prop, tier, seed, obligations, meta, t0, confirm=None):
         "rule": "one evaluation = one named proof obligation generated from /repo's current source; "
                 "all are distinct by name; vacuity/cover obligations are included in the count",
     }
+    cov["assumption_scan"] = assumption_scan()
     ev = {"property_id": prop, "tier": tier, "seed": seed, "level": level, "coverage": cov,
           "assumptions": meta.get("assumptions", []), "wall_s": round(time.time() - t0, 2),
           "violations": violations}
